@@ -131,7 +131,8 @@ def gen_tags(r, txn):
     return out
 
 
-def gen_rules_file(r, txn, n=None, force_ties=False, dup_names=False, let_twins=False, long_patterns=False):
+def gen_rules_file(r, txn, n=None, force_ties=False, dup_names=False, let_twins=False, long_patterns=False, walrus_twins=False,
+                   odd_values=False):
     """Returns an abstract rules file: dict(variables, transforms, rules=[dict(...)])."""
     n = n if n is not None else r.choice([1, 2, 3, 4, 5, 6, 8])
     variables = {}
@@ -139,6 +140,8 @@ def gen_rules_file(r, txn, n=None, force_ties=False, dup_names=False, let_twins=
         variables['is_large'] = f'amount > {r.choice([100, 200, 500])}'
     if r.random() < 0.2:
         variables['is_q1'] = 'month <= 3'
+    if r.random() < 0.25:
+        variables['size_lbl'] = r.choice(['"large" if amount >= 500 else "small"', 'lowercase(source)', '"q" + "1" if month <= 3 else "later"'])   # used from tags only
     transforms = []
     if r.random() < 0.25:
         transforms.append(('field.description', r.choice([
@@ -171,6 +174,8 @@ def gen_rules_file(r, txn, n=None, force_ties=False, dup_names=False, let_twins=
             rule['subcategory'] = 'SubOnly'
         if tag_only or r.random() < 0.45:
             rule['tags'] = gen_tags(r, txn)
+            if 'size_lbl' in variables and r.random() < 0.5:
+                rule['tags'].append(r.choice(['{size_lbl}', '{Size_Lbl}']))
         if r.random() < 0.3:
             rule['merchant'] = r.choice(['Uber', 'Amazon', 'Some Shop', name.upper()])
         if r.random() < 0.25:
@@ -185,6 +190,30 @@ def gen_rules_file(r, txn, n=None, force_ties=False, dup_names=False, let_twins=
         if r.random() < 0.15 and not tag_only:
             rule['fields'] = [('kind', 'extract(description, "([A-Z]+)")'), ('amt2', 'amount * 2')][:r.choice([1, 2])]
         rules.append(rule)
+    if walrus_twins and len(rules) >= 2:
+        # one rule binds a name with := , another rule uses the SAME name through `let:` or a top-level variable: rules are independent
+        words = [w for w in txn['description'].upper().split() if w.isalnum()] or ['UBER']
+        name = r.choice(['code', 'big', 'k'])
+        i, j = r.sample(range(len(rules)), 2)
+        rules[i]['match'] = f'({name} := extract(description, "([A-Z]+)")) == "{r.choice(words + ["ZZZ"])}" or {name} != "" and {rules[i]["match"]}'
+        rules[i].pop('lets', None)
+        if r.random() < 0.5:
+            rules[j]['lets'] = [(name, r.choice(['"X"', 'amount > 100', 'lowercase(description)']))]
+            rules[j]['match'] = r.choice([f'{name} == "X"', f'{name} == true', f'{name} == "{txn["description"].lower()}"', f'exists({name})'])
+        else:
+            variables[name] = r.choice(['"X"', 'amount > 100'])
+            rules[j]['match'] = r.choice([f'{name} == "X"', f'{name} == true', f'not {name} == "{words[0]}"'])
+            rules[j].pop('lets', None)
+    if odd_values:
+        # merchant / category / subcategory are free text to the end of the line (surrounding blanks apart)
+        for rule in rules:
+            if 'category' in rule and r.random() < 0.4:
+                rule['category'] = r.choice(['Kids #1', 'Food & Drink', 'A: B', 'Fuel #2 card', 'Café', 'x = y', 'R&D (lab)', 'Rent, utilities', '"Quoted"', "It's",
+                                             'a#b', 'Tax 2024/25', 'Größe'])
+            if 'subcategory' in rule and r.random() < 0.4:
+                rule['subcategory'] = r.choice(['Store #12', 'Sub: one', 'p/q', '# not a comment?'.replace('# ', 'No. #'), 'x  y', 'ÄÖ'])
+            if r.random() < 0.3:
+                rule['merchant'] = r.choice(['Safeway #1234', 'Safeway #99', "Joe's #2", 'A & B', 'Shop: Main St', 'M (East)', 'X #A1 # B2'])
     if long_patterns and rules:
         # one rule becomes a catch-all alternation of many spellings (true of the transaction): hundreds of characters of pattern text
         words = [w for w in txn['description'].upper().split() if w.isalnum()] or ['UBER']
